@@ -332,7 +332,11 @@ fn run_check(id: &str, tier: &str) -> i32 {
         for m in machinery.iter().take(10) {
             println!("MACHINERY-ERROR {m}");
         }
-        exit = 2;
+        // a violation that was found and reported stays the verdict (exit 1): code that breaks the
+        // property often also breaks a precondition of a later harness step
+        if exit == 0 {
+            exit = 2;
+        }
     }
 
     // evidence
